@@ -391,9 +391,9 @@ Qed.
 Definition TWO64 : Z := 18446744073709551616.
 
 Lemma ovf_fixed_spec x d : 0 <= x < TWO64 -> 0 <= d <= 9 ->
-  ovf_fixed x (u64 (x * 10 + d)) = (TWO64 <=? x * 10 + d).
+  ovf_fixed x d = (TWO64 <=? x * 10 + d).
 Proof.
-  intros Hx Hd. unfold ovf_fixed, u64, TWO64 in *. change (U64_MAX / 10) with 1844674407370955161.
+  intros Hx Hd. unfold ovf_fixed, U64_MAX, TWO64 in *.
   destruct (18446744073709551616 <=? x * 10 + d) eqn:E; lia.
 Qed.
 
@@ -411,7 +411,7 @@ Proof.
     destruct (TWO64 <=? x) eqn:E; [lia|].
     destruct rest as [|c r]; [reflexivity|]. cbn [acc_loop]. cbn in Hrest. rewrite Hrest. reflexivity.
   - inversion Hds as [|? ? Hc Ht]; subst.
-    cbn [app acc_loop]. rewrite (proj2 (is_digit_true c) Hc).
+    cbn [app acc_loop]. rewrite (proj2 (is_digit_true c) Hc). cbv zeta.
     unfold digitc in Hc. rewrite ovf_fixed_spec by lia. rewrite dval_from_cons.
     destruct (TWO64 <=? x * 10 + (c - 48)) eqn:E.
     + pose proof (dval_from_ge t (x * 10 + (c - 48)) Ht ltac:(lia)).
